@@ -200,12 +200,20 @@ struct Ex {
     return E;
   }
   llvm::DenseMap<const Stmt*, int> ids;
+  llvm::DenseMap<const Stmt*, int> kept;     // statements that produced an event
   int evOf(const Expr *E) {
-    E = peelVal(E); if (!E) return -1;
-    auto it = ids.find(E); if (it != ids.end()) return it->second;
-    // copy/move construction from a call result: the interesting producer is the argument
-    if (auto *CC = dyn_cast<CXXConstructExpr>(E)) if (CC->getNumArgs()==1 && CC->getConstructor()->isCopyOrMoveConstructor()) return evOf(CC->getArg(0));
-    if (auto *CE = dyn_cast<CallExpr>(E)) if (auto *FD = CE->getDirectCallee()) { std::string n = fq(FD); if ((n=="std::move"||n=="std::forward") && CE->getNumArgs()==1) return evOf(CE->getArg(0)); }
+    while (E) {
+      auto it = kept.find(E); if (it != kept.end()) return it->second;
+      const Expr *N = nullptr;
+      if (auto *P = dyn_cast<ParenExpr>(E)) N = P->getSubExpr();
+      else if (auto *FE = dyn_cast<FullExpr>(E)) N = FE->getSubExpr();
+      else if (auto *MT = dyn_cast<MaterializeTemporaryExpr>(E)) N = MT->getSubExpr();
+      else if (auto *BT = dyn_cast<CXXBindTemporaryExpr>(E)) N = BT->getSubExpr();
+      else if (auto *CE = dyn_cast<CastExpr>(E)) N = CE->getSubExpr();
+      else if (auto *DA = dyn_cast<CXXDefaultArgExpr>(E)) N = DA->getExpr();
+      else if (auto *UO = dyn_cast<UnaryOperator>(E)) { if (UO->getOpcode()==UO_AddrOf || UO->getOpcode()==UO_Deref) N = nullptr; }
+      E = N;
+    }
     return -1;
   }
   json::Array argsOf(llvm::ArrayRef<const Expr*> Args) {
@@ -269,7 +277,7 @@ struct Ex {
     if (!cfg) return;
     PrePass PP; PP.TraverseStmt(const_cast<Stmt*>(Body));
     ParentMap PM(const_cast<Stmt*>(Body));
-    ids.clear();
+    ids.clear(); kept.clear();
     json::Object F; F["key"] = fkey(FD); F["name"] = fq(FD); F["inst"] = instName(FD); F["coroutine"] = coro;
     F["lines"] = json::Array{(int64_t)line(FD->getBeginLoc()), (int64_t)line(FD->getEndLoc())};
     if (Parent) F["parent_key"] = fkey(Parent);
@@ -340,7 +348,7 @@ struct Ex {
         } else if (auto *CA = dyn_cast<CoawaitExpr>(S)) { E["k"]="co_await"; E["operand"]=path(CA->getOperand()); E["implicit_await"]=CA->isImplicit(); int oe = evOf(CA->getOperand()); if (oe>=0) E["operand_ev"]=oe; E["use"]=useOf(S, PM); keep = true;
         } else if (auto *CY = dyn_cast<CoyieldExpr>(S)) { E["k"]="co_yield"; E["operand"]=path(CY->getOperand()); E["use"]=useOf(S, PM); keep = true;
         } else if (auto *CO = dyn_cast<ConditionalOperator>(S)) { E["k"]="select"; E["cond"]=path(CO->getCond()); int t = evOf(CO->getTrueExpr()), f = evOf(CO->getFalseExpr()); if (t>=0) E["true_ev"]=t; if (f>=0) E["false_ev"]=f; E["use"]=useOf(S, PM); keep = true; }
-        if (keep) evs.push_back(std::move(E));
+        if (keep) { kept[S] = id; evs.push_back(std::move(E)); }
       }
       JB["ev"] = std::move(evs);
       json::Array succ; for (auto S : B->succs()) succ.push_back(S.getReachableBlock() ? (int64_t)S.getReachableBlock()->getBlockID() : (int64_t)-1); JB["succ"] = std::move(succ);
